@@ -39,6 +39,8 @@ const prelude = `(set-logic ALL)
 (assert (forall ((b Int)) (! (= (lowerb b) (ite (and (<= 65 b) (<= b 90)) (+ b 32) b)) :pattern ((lowerb b)))))
 (declare-datatypes ((Slc 0)) (((mkslc (sarr Int) (soff Int) (slen Int) (scap Int)))))
 (define-fun nilslc () Slc (mkslc 0 0 0 0))
+(declare-fun idx (Slc Int) Int)
+(assert (forall ((s Slc) (i Int)) (! (= (idx s i) (+ (soff s) i)) :pattern ((idx s i)))))
 (declare-fun elemref (Int Int) Int)
 (declare-fun er_arr (Int) Int)
 (declare-fun er_idx (Int) Int)
@@ -70,8 +72,12 @@ type solverSpec struct {
 var solvers = []solverSpec{
 	{"z3new", func(f string, s int) []string { return []string{"z3-new", fmt.Sprintf("-T:%d", s), f} }},
 	{"cvc5", func(f string, s int) []string { return []string{"cvc5", fmt.Sprintf("--tlimit=%d", s*1000), f} }},
-	{"z3", func(f string, s int) []string { return []string{"z3", fmt.Sprintf("-T:%d", s), f} }},
 }
+
+// z3 4.8.12 (/usr/bin/z3) is NOT part of the deciding portfolio: on the vacuity query of
+// fiber.(*DefaultCtx).Host it answered `unsat` where z3 5.1.0 and cvc5 answer `unknown`, and the
+// answer flipped when any unrelated prelude axiom (e.g. the boxS axiom, which has no ground
+// instance in the query) was removed — an unstable and therefore untrustworthy `unsat`.
 
 func runSolver(sp solverSpec, file string, secs int) Result {
 	ctx, cancel := context.WithTimeout(context.Background(), time.Duration(secs+2)*time.Second)
@@ -131,13 +137,13 @@ func solve(file string, secs int, all bool) (Result, []Result) {
 	if r.Status == "unsat" || r.Status == "sat" {
 		return r, []Result{r}
 	}
-	ch := make(chan Result, 2)
+	ch := make(chan Result, len(solvers))
 	for _, sp := range solvers[1:] {
 		go func() { ch <- runSolver(sp, file, secs) }()
 	}
 	rs := []Result{r}
 	best := r
-	for i := 0; i < 2; i++ {
+	for i := 0; i < len(solvers)-1; i++ {
 		x := <-ch
 		rs = append(rs, x)
 		if x.Status == "unsat" && best.Status != "unsat" {
@@ -212,6 +218,12 @@ func not(x string) string {
 func imp(a, b string) string {
 	if a == "true" {
 		return b
+	}
+	if a == "false" || b == "true" {
+		return "true"
+	}
+	if b == "false" {
+		return not(a)
 	}
 	return "(=> " + a + " " + b + ")"
 }
